@@ -17,6 +17,7 @@ macro_rules! scen {
 pub mod c01;
 pub mod c04;
 pub mod c06;
+pub mod c07;
 pub mod c08;
 pub mod c09;
 pub mod c10;
@@ -26,6 +27,7 @@ pub fn all() -> Vec<Scenario> {
     c01::register(&mut v);
     c04::register(&mut v);
     c06::register(&mut v);
+    c07::register(&mut v);
     c08::register(&mut v);
     c09::register(&mut v);
     c10::register(&mut v);
